@@ -23,7 +23,10 @@ import (
 // C20 — no request can crash or wedge a node, with production metrics enabled.
 
 var c20Keys = []string{"", "hex:00", "#", "$", "a$b", prefix + "/x", prefix + "/x$", prefix + "/", "/", "hex:ffff", "hex:57fb808b2f7265672400000000000000ff",
-	prefix + "/events/ns/e", "LONG", prefix + "/y", "compact_rev_key", prefix + "/compact_key", prefix + "/election"}
+	prefix + "/events/ns/e", "LONG", prefix + "/y", "compact_rev_key", prefix + "/compact_key", prefix + "/election",
+	// long valid-UTF-8 keys of 2-, 3- and 4-byte characters at both byte parities: wherever code cuts a key
+	// (or a label made from it) at a byte offset, one of them is cut inside a character
+	"UTF8:2:0", "UTF8:2:1", "UTF8:3:0", "UTF8:3:1", "UTF8:3:2", "UTF8:4:0", "UTF8:4:1", "UTF8:4:3"}
 var c20Vals = []string{"", "x", "tombstone", "hex:00", "hex:0000000000000001", "LONG", "v"}
 var c20Revs = []int64{0, 1, -1, math.MinInt64, math.MaxInt64, 1 << 40, 1888, -1888, 2, -2}
 
@@ -65,7 +68,7 @@ func genC20(r *rt.Rand, tier string, idx int) *world.Scenario {
 		n := 6 + r.Intn(24)
 		for i := 0; i < n; i++ {
 			op := world.Op{K: "h", API: c20Calls[r.Intn(len(c20Calls))], Key: c20Keys[r.Intn(len(c20Keys))], End: c20Keys[r.Intn(len(c20Keys))],
-				Val: c20Vals[r.Intn(len(c20Vals))], Rev: world.Rev{M: "abs", N: c20Revs[r.Intn(len(c20Revs))]}, Limit: []int64{0, 1, -1, math.MaxInt64}[r.Intn(4)]}
+				Val: c20Vals[r.Intn(len(c20Vals))], Rev: world.Rev{M: "abs", N: c20Revs[r.Intn(len(c20Revs))]}, Limit: []int64{0, 1, -1, math.MaxInt64, math.MaxInt64 - 1, math.MaxInt64 / 2, 1 << 31, math.MinInt64}[r.Intn(8)]}
 			if r.Chance(0.3) {
 				// a well-formed neighbour of the hostile input
 				op.Key, op.End, op.Val = prefix+"/y", prefix+"/z", "v"
@@ -80,6 +83,12 @@ func genC20(r *rt.Rand, tier string, idx int) *world.Scenario {
 func c20Bytes(s string) []byte {
 	if s == "LONG" {
 		return []byte(prefix + "/" + strings.Repeat("k", 70000))
+	}
+	if strings.HasPrefix(s, "UTF8:") {
+		var width, shift int
+		fmt.Sscanf(s, "UTF8:%d:%d", &width, &shift)
+		ch := map[int]string{2: "\u00e9", 3: "\u20ac", 4: "\U0001F600"}[width]
+		return []byte(prefix + "/" + strings.Repeat("x", shift) + strings.Repeat(ch, 400/width))
 	}
 	return world.Bytes(s)
 }
@@ -371,6 +380,14 @@ func c20Custom(t *testing.T, sc *world.Scenario, out *Outcome) {
 		out.violate(P, "metric-label-set", "metric-label-set name="+name, "metric emitted with different kinds / label-name sets: %s", bad)
 	}
 	c20MetricPanics(sn.M, out)
+	for _, f := range w.Fatals {
+		// klog.Fatal ends a real node's process
+		msg := f
+		if i := strings.Index(msg, "] "); i > 0 {
+			msg = msg[i+2:]
+		}
+		out.violate(P, "node-exited", "node-exited "+clipS(msg), "the node ended its own process (klog.Fatal): %s", f)
+	}
 	out.NonTrivial = probeN > 0
 	out.Steps = s.StepNo()
 	out.SimMs = s.SimTime().Milliseconds()
